@@ -269,7 +269,6 @@ pub fn gen(ctx: &Ctx) -> Vec<Value> {
         let mut cases = deep_term_cases();
         cases.extend(union_rows_cases(false));
         cases.extend(len_hint_cases());
-    cases.extend(trace_len_hint_cases());
         cases.extend(trace_len_hint_cases());
         return cases;
     }
@@ -284,6 +283,7 @@ pub fn gen(ctx: &Ctx) -> Vec<Value> {
     cases.extend(deep_term_cases());
     cases.extend(union_rows_cases(true));
     cases.extend(len_hint_cases());
+    cases.extend(trace_len_hint_cases());
     cases
 }
 
